@@ -22,7 +22,7 @@
    keys of the sqlite tables / cosmos items).  Nothing else is assumed: every store, every now, stamp
    and maxAge (also zero or negative), both values of the flag. *)
 From Coercion.Base Require Import Plan.
-From Coercion.Select Require Import Rows Select SelectSpec SelectProofs SelectExamples.
+From Coercion.Select Require Import Rows Select SelectSpec SelectProofs CrashProofs SelectExamples.
 
 Theorem c11_resume_selection :
   forall (s : list plan) (now stamp maxAge : Z) (recovery : bool),
@@ -114,6 +114,28 @@ Theorem c11_storage_recovery_first :
 Proof. exact open_workstream_repairs_first. Qed.
 Print Assumptions c11_storage_recovery_first.
 
+(* the close is crash-safe: the code writes the plan row FIRST, so after any non-empty prefix of the
+   close's Update* calls (a process dying mid-close) the plan is durably Failed / ExceedRecovery and no
+   later start-up, whatever its clock and options, hands it to runPlan.  (No premise on the store.) *)
+Theorem c11_close_is_crash_safe :
+  forall (s : list plan) (stamp : Z) (p : plan) (j : nat),
+    is_running p -> (1 <= j)%nat ->
+    let s' := persist s (firstn j (writes_aged (age_out stamp p))) in
+    (forall q, In q s' -> pid q = pid p ->
+               ~ is_running q /\ status_of (p_state q) = Some Failed /\ p_reason q = FRExceedRecovery) /\
+    (forall now' stamp' maxAge' recovery',
+        ~ In (pid p) (snd (select now' stamp' maxAge' recovery' s'))).
+Proof. exact close_is_crash_safe. Qed.
+Print Assumptions c11_close_is_crash_safe.
+
+(* [crash_during_close] with all the writes let through is the store [select] returns *)
+Theorem c11_crash_after_all_writes :
+  forall (now stamp maxAge : Z) (s : list plan),
+    crash_during_close (length (close_writes now stamp maxAge s)) now stamp maxAge s =
+    fst (select now stamp maxAge true s).
+Proof. exact crash_after_all_writes. Qed.
+Print Assumptions c11_crash_after_all_writes.
+
 (* the monitor of the correspondence check decides the specification's predicates *)
 Theorem c11_monitor_predicates :
   forall (now maxAge : Z) (p : plan),
@@ -147,6 +169,17 @@ Example c11_ex_unrepaired_index_refutes :
   nth 1 (fst (open_workstream_late ex_now ex_stamp ex_maxage true ex_vault)) ex_fresh = close_plan ex_stamp ex_done /\
   close_plan ex_stamp ex_done <> ex_done.
 Proof. exact ex_vault_unrepaired_refutes. Qed.
+(* the reversed order (seeded change C11-e: sub-objects first, plan row last) is refuted: dying after 3
+   writes leaves a Running plan with a fresh End stamp, which the next start-up resumes *)
+Example c11_ex_plan_row_last_refuted :
+  snd (ex_restart (persist [ex_aged] (firstn 3 (writes_plan_last (age_out ex_stamp ex_aged))))) = [30%N] /\
+  snd (ex_restart (persist [ex_aged] (firstn 3 (writes_aged (age_out ex_stamp ex_aged))))) = [].
+Proof. exact ex_plan_row_last_refuted. Qed.
+(* observation (a weakness of the close that is not part of C11's statement): after a crash mid-close
+   the objects not yet written stay Running for good *)
+Example c11_ex_crash_leaves_children_running :
+  running_rows (fst (ex_restart (crash_during_close 1 ex_now ex_stamp ex_maxage [ex_aged]))) = 5.
+Proof. vm_compute. reflexivity. Qed.
 Example c11_ex_r1_plan_row_only_leaves_running :
   running_rows (persist [ex_aged] (writes_plan_only (age_out ex_stamp ex_aged))) = 5 /\
   running_rows (persist [ex_aged] (writes_aged (age_out ex_stamp ex_aged))) = 0.
